@@ -35,14 +35,14 @@ EXPLANATION = ("f_opt / f_mem / f_dist are Lean theorems for point_to_triangle (
                "and searched all 34 functions for a strictly closer verified pair of points or a separating-plane "
                "certificate contradicting the returned distance")
 PARTIAL = {
-    "line_to_triangle_opt": "not proved. Modelled faithfully (lineToTriangleFull incl. norm_vector, plane_basis_from_normal, "
-                            "_line_to_line_segment, the three-edge loop with MAX_FLOAT start) and tied by correspondence "
-                            "(lattice exact / general Float); missing: correctness of the plane-basis intersection test and "
-                            "the lemma 'a line that misses the triangle is closest to one of its edges'",
-    "line_segment_to_triangle_opt_partial": "conditional: proved from clamp_convex + point_to_triangle_opt under the "
-                                            "hypothesis that _line_to_triangle's result on the carrier line is feasible and "
-                                            "globally optimal (that hypothesis is line_to_triangle_opt, not proved; the "
-                                            "search checks it numerically on every run)",
+    "line_to_triangle_opt (closed outside the parallel band)":
+        "D3/Properties/C11LineTriangle.lean: line_to_triangle_opt and the unconditional line_segment_to_triangle_opt "
+        "hold outside the nearly-parallel tolerance band, for edges with |edge|^2 >= epsilon; line_to_triangle_feasible "
+        "and line_to_triangle_opt_within_epsilon hold for every input; line_to_triangle_band_asIs_counterexample shows "
+        "the band hypothesis is necessary",
+    "line_segment_to_triangle_opt (closed, same band)":
+        "now unconditional given line_to_triangle_opt (C11LineTriangle.line_segment_to_triangle_opt): same band "
+        "hypothesis, nothing else assumed",
     "point_to_circle_opt": "exact optimality / membership: hypotheses exclude the band 0 < |dip|^2 < epsilon^2 (code as of /repo "
                            "0e4a1a6) and pytransform3d's band 0 < |n.z| < 1e-7 (there the returned point leaves the circle "
                            "plane). The band is closed for the property's tolerance by point_to_circle_opt_within_epsilon "
